@@ -8,7 +8,7 @@ PLAN = dict(
          "non-trivial = at least one unit or loop chunk was executed by a thread other than its submitter (stolen / FIFO stream / mailbox); "
          "distinct = hash of program text + schedule descriptor",
     assumptions=SC_TSO + ["work run into a task_group from inside task_arena::execute of another arena is outside the generated domain (it may legitimately never be taken when that arena has no worker)",
-                          "the assertion flavour never generates max_allowed_parallelism 1 (known finding C01-update-allotment-assert: debug-only assertion in market::update_allotment)", "units whose ancestor group is cancelled anywhere in the program may be skipped (checked: never twice, never half-run)"],
+                          "the assertion flavour never generates max_allowed_parallelism 1 (known finding C01-update-allotment-assert: debug-only assertion in market::update_allotment)", "task_arena::execute back into an arena the calling thread already occupies at an outer nesting level (A.execute -> B.execute -> A.execute) is a user-level deadlock when A is saturated and is never generated", "units whose ancestor group is cancelled anywhere in the program may be skipped (checked: never twice, never half-run)"],
     floor=dict(quick=50, thorough=300),
     tiers=dict(
         quick=[det("rel", H, "cs-rel", 16, 40, 4, tso=True, time_cap=30),
